@@ -60,12 +60,34 @@ R3 = {   # round 3: source files mutA / mutB of the worktree, recorded as <id>-C
  "C19-C": ("C19", True, ""),
  "C19-D": ("C19", False, "documents as text with namespaces declared on inner elements; every error path resolved with the namespace map the error itself carries"),
 }
+R4 = {   # round 4: source files mutA / mutB of the worktree, recorded as <id>-C / <id>-D
+ "C02-C": ("C02", False, "SimpleTypes.tla: totalDigits / fractionDigits over ALL decimal class words of length <= 5 (every shape of zero, missing integer part)"),
+ "C02-D": ("C02", False, "SimpleTypes.tla: whiteSpace x length-family / enumeration facets on xs:string / normalizedString / token over all words on letter / space / tab, in one or two derivation steps"),
+ "C06-C": ("C06", True, ""), "C06-D": ("C06", True, ""),
+ "C07-C": ("C07", True, ""),
+ "C07-D": ("C07", False, "Derivation.tla mode alt: tests on an own and on an INHERITED attribute (own attribute overriding), 11 alternative lists incl. not(@j) (exposed and repaired F-C07-b; the change was rebased on the repair)"),
+ "C10-C": ("C10", False, "HistoryAlt.tla: histories over the type-alternative scenario with an inherited attribute; variant 'memo' (cache keyed by the own attributes) refuted by TLC and replayed (rebased on the repair of F-C07-b)"),
+ "C10-D": ("C10", False, "HistoryAlt.tla variant 'residue' and operations aborted by an exception of the application's validation_hook / extra_validator in every history driver"),
+ "C11-C": ("C11", True, ""), "C11-D": ("C11", True, ""),
+ "C13-C": ("C13", True, ""),
+ "C13-D": ("C13", False, "Defuse.tla: the encoding of the bytes (UTF-8, UTF-16 with byte order mark, ISO-8859-1) as a dimension that no rule may depend on"),
+ "C14-C": ("C14", False, "ContentModel.tla family RestrW: a single element / wildcard particle replaced by a repeated choice / sequence around it (exposed and repaired F-C14-e, F-C14-f)"),
+ "C14-D": ("C14", False, "ContentModel.tla family RestrW: 7 namespace constraints of a wildcard (##local, lists) exchanged for one another; symbols of a foreign and of no namespace"),
+ "C15-C": ("C15", True, ""),
+ "C15-D": ("C15", False, "ContentModel.tla family MultiHead: XSD 1.1 element that is a member of two substitution groups"),
+ "C18-C": ("C18", True, ""), "C18-D": ("C18", True, ""),
+ "C20-C": ("C20", False, "substitution-group members selected by explicit paths (Derivation.tla SubstPartialValid): get_element, verdict, errors and data"),
+ "C20-D": ("C20", False, "xs:ID / xs:IDREF(S) documents of Identity.tla under selections that hold every row; partial validation from the document text"),
+}
 SRC = {}
 if len(sys.argv) > 1 and sys.argv[1] == "2":
     R = R2
 if len(sys.argv) > 1 and sys.argv[1] == "3":
     R = R3
     SRC = {k: k[:-1] + {"C": "A", "D": "B"}[k[-1]] for k in R3}
+if len(sys.argv) > 1 and sys.argv[1] == "4":
+    R = R4
+    SRC = {k: k[:-1] + {"C": "A", "D": "B"}[k[-1]] for k in R4}
 for mid, (chk, first, how) in R.items():
     pid, v = SRC.get(mid, mid).split("-")
     src = pathlib.Path(f"/tmp/mut/{pid}/out")
